@@ -169,7 +169,7 @@ def run_true_cli(spec, hashseed='0', timeout=120):
             if v is None:
                 env.pop(k, None)
             else:
-                env[k] = v
+                env[k] = v.replace('{SCRATCH}', d)
         t0 = time.monotonic()
         # the same CPU-time bound as the forked run (CPU time, not wall time: it does not depend on machine load);
         # interpreter start-up and imports cost the fresh process about half a second more, hence the allowance
